@@ -61,7 +61,8 @@ impl<T: Clone + TTOverwriteable> TranspositionTable<T> {
     }
 
     pub fn new_generation(&mut self) {
-        self.generation += 1;
+        // Only used to tell searches apart, so wrapping after 255 searches is fine
+        self.generation = self.generation.wrapping_add(1);
     }
 
     #[expect(
